@@ -122,6 +122,10 @@ func (p *Program) verifyFunc(c *Contract) *FuncResult {
 	rnames := resultNames(c, fn, nil)
 	var retConds []Term
 	for _, e := range c.Ensures {
+		if e.Assumed {
+			ex.trusted["assumed clause of "+res.Name+": "+e.Label+" ("+truncate(e.Src, 120)+")"] = true
+			continue
+		}
 		var goals []Term
 		for _, r := range rets {
 			env := fr.baseEnv(r.st, fr.names, nil)
